@@ -107,7 +107,14 @@ def check_case(case, workdir=None):
             done.append(('all-bound', mixed))
         # every single omission
         for kind, om in omissions(info, clients):
-            notes = run_one(pr, exe, script(info, clients, om, 1))
+            lines = script(info, clients, om, 1)
+            # ... and again: a second attempt with the event still unbound; then (user-side omission
+            # on a shell without multi-client port) the missing event is bound after all
+            lines.append('final 1')
+            rebind = bool(om.get('bind_skip')) and not info.mc
+            if rebind:
+                lines += ['bind -', 'final 1']
+            notes = run_one(pr, exe, lines)
             fin = [t for t in notes if t['what'].startswith('final')]
             role = kind.split(':')[0]
             if not fin:
@@ -118,6 +125,13 @@ def check_case(case, workdir=None):
             if fin[0].get('type') != 'binding_error':
                 raise Fail(f'omission {kind}: final construction failed with {fin[0]} instead of a '
                            f'binding error', f'wrong-error:{role}')
+            if len(fin) < 2 or fin[1]['what'] == 'final-ok':
+                raise Fail(f'omission {kind}: the first final construction failed, a second one - the '
+                           f'event still unbound - returned: {fin[1:2]}', f'undetected-on-retry:{role}')
+            if rebind and (len(fin) < 3 or fin[2]['what'] != 'final-ok' or not fin[2]['parent_set']):
+                raise Fail(f'omission {kind}: after the missing event was bound as well, final '
+                           f'construction still does not succeed / record the parent: {fin[2:3]}',
+                           'retry-after-binding')
             done.append((kind, mixed))
         return done
     finally:
